@@ -107,8 +107,27 @@ def strat():
         return dict(regions=out, sorter=draw(st.sampled_from(["smart", "naive"])), use_float=use_float,
                     param=draw(st.sampled_from([0.1, 0.0, 0.05, 0.3, 0.5])), denom=draw(st.sampled_from([10, 1, 3, 50])),
                     width=draw(st.sampled_from([3000, 100, 1000])), twice=draw(st.booleans()), int_lines=draw(st.booleans()),
-                    line_ids=draw(st.sampled_from(["page", "page", "region", "none"])))
+                    line_ids=draw(st.sampled_from(["page", "page", "region", "none"])),
+                    # the sorter object is long-lived (PageParser keeps it for all pages): the page it handled before this one
+                    history=draw(st.sampled_from([None, None, "slanted", "slanted", "level", "empty"])))
     return page()
+
+
+def prior_page(kind):
+    """a fixed earlier page for the same sorter object: two columns of three lines, tilted by 0.05 or level, or no regions."""
+    if kind == "empty":
+        regions = []
+    else:
+        sl = 0.05 if kind == "slanted" else 0.0
+        regions = []
+        for k, x0 in enumerate((100, 1500)):
+            lines = []
+            for li in range(3):
+                by = 230 + 60 * li
+                bl = [[x0 + 5, by], [x0 + 905, by + sl * 900]]
+                lines.append(dict(baseline=bl, polygon=[[p[0], p[1] - 20] for p in bl] + [[p[0], p[1] + 8] for p in reversed(bl)], text="t"))
+            regions.append(dict(id="h%d" % k, polygon=[[x0, 200], [x0 + 1000, 200], [x0 + 1000, 600], [x0, 600]], lines=lines, text=None))
+    return build(dict(regions=regions, use_float=True))
 
 
 def build(case):
@@ -176,6 +195,13 @@ def body(ctx, case):
     tol = 1e-6 * scale
     old = sys.getrecursionlimit()
     sys.setrecursionlimit(600)
+    if case.get("history"):
+        ctx.event("sorter_with_history:" + case["history"])
+        try:
+            with np.errstate(all="ignore"):
+                sorter.process_page(img, prior_page(case["history"]))
+        except Exception as e:  # noqa: BLE001
+            ctx.fail("sorter_raises", "on the earlier page (%s): %s: %s; " % (case["history"], type(e).__name__, str(e)[:200]) + desc())
     try:
         for rep in range(2 if case["twice"] else 1):
             try:
